@@ -281,6 +281,7 @@ func check(c *runner.Ctx, s work.Struct, h *genfrag.History) {
 	lv := infoLevels[c.Rand.Intn(len(infoLevels))]
 	if pi := c.Guard(func() { _ = x.Info(io.Discard, lv, "", "  ") }); pi != nil {
 		c.Count("panics_left_to_C04", 1)
+		c.Seen("panic_outside_domain(C04)", runner.PanicKey("info", pi))
 		return
 	}
 	c.Seen("info_level", lv)
@@ -310,6 +311,7 @@ func check(c *runner.Ctx, s work.Struct, h *genfrag.History) {
 		l2 := infoLevels[c.Rand.Intn(len(infoLevels))]
 		if pi := c.Guard(func() { _ = x.Info(io.Discard, l2, "", " ") }); pi != nil {
 			c.Count("panics_left_to_C04", 1)
+			c.Seen("panic_outside_domain(C04)", runner.PanicKey("info", pi))
 			return
 		}
 	}
